@@ -244,6 +244,31 @@ class Tree:
         return f
 
 
+def numeric_port(basename):
+    """the port-ID a file name encodes, as a number (leading zeros!), or None"""
+    parts = basename.split(".")[:-1]
+    if len(parts) == 4 and parts[0].isascii() and parts[0].isdigit():
+        return int(parts[0])
+    return None
+
+
+def cross_definition_conflict(case):
+    """C15 must not depend on the cross-definition rules of C11 (port-ID collisions, two definitions of one name): True
+    if two files of the tree (the decoys of the symbolic-link spellings aside, they are never read together with their
+    originals) encode the same numeric port-ID, or the same directory and short name up to letter case."""
+    ports, names = [], []
+    for f in case["files"]:
+        if f["p"][0].startswith("lnk"):
+            continue
+        parts = f["p"][-1].split(".")[:-1]
+        n = numeric_port(f["p"][-1])
+        if n is not None:
+            ports.append(n)
+        if len(parts) in (3, 4):
+            names.append(("/".join(f["p"][:-1]), parts[-3].strip().lower()))
+    return len(ports) != len(set(ports)) or len(names) != len(set(names))
+
+
 def rel_to(cwd, p):
     return p[len(cwd):] if p[:len(cwd)] == cwd else None
 
@@ -374,6 +399,12 @@ def gen_case(rng, tier):
             nm = "".join(rng.choice(alphabet) for _ in range(rng.randrange(1, 10)))
             if rng.random() < 0.8:
                 nm += rng.choice([".1.0.dsdl", ".dsdl", ".0.1.uavcan", "1.0.dsdl", ".7.dsdl"])
+            np_ = numeric_port(nm)
+            if np_ is not None and np_ in t.used_ports:
+                nm = "x" + nm          # never a second definition with the same numeric port-ID ("00" is 0): that is C11's rule
+                np_ = numeric_port(nm)
+            if np_ is not None:
+                t.used_ports.add(np_)
             if nm not in (".", "..") and not any(f["p"][:len(host)] == host for f in t.files):
                 bf = {"p": host + [nm], "svc": rng.random() < 0.2}
                 t.files.append(bf)
@@ -728,7 +759,10 @@ def generate(rng, tier):
     streams = ["corpus"] * len(cases)
     n = 900 if tier == "quick" else 12000
     for k in range(n):
-        cases.append(gen_shadow_case(rng) if k % 10 == 9 else gen_case(rng, tier))
+        c = gen_shadow_case(rng) if k % 10 == 9 else gen_case(rng, tier)
+        while cross_definition_conflict(c):      # defensive: regenerate (deterministically) instead of relying on C11's rules
+            c = gen_case(rng, tier)
+        cases.append(c)
         streams.append("random")
     return cases, streams
 
